@@ -34,6 +34,13 @@ F4 == UNION {{Case(<<<<"x">>, b>>, c, k, at, {}, "none", -1) :
 (* peer closes before / inside the hello *)
 F5 == {Case(<<<<"x">>>>, {}, "none", -1, hc, k, at) :
          k \in {"clean", "abort", "eof"}, at \in 0..(HelloLen - 1), hc \in SubsetsUpTo(1..(HelloLen - 1), 1)}
+(* ... during a NEGATIVE reply: the stream ends before / between / after the children of its <rpc-error> (a reader of  *)
+(* error replies has loops of its own)                                                                                *)
+ErrBody == <<"<error-type>protocol</error-type>", "<error-tag>operation-failed</error-tag>", "<error-severity>error</error-severity>",
+             "<error-message>the-message</error-message>">>
+F13 == {Case(<<ErrBody>>, {}, k, at, {}, "none", -1) : k \in {"clean", "abort", "eof"}, at \in 0..Len1(ErrBody)}
+       \cup {Case(<<<<"x">>, ErrBody>>, {}, k, at, {}, "none", -1) : k \in {"clean", "eof"}, at \in Len1(<<"x">>)..(Len1(<<"x">>) + Len1(ErrBody))}
+       \cup {Case(<<ErrBody, <<"x">>>>, c, "none", -1, {}, "none", -1) : c \in {{}, {Len1(ErrBody)}, {7}}}
 (* C18 on the real transports: the first reply arrives in two pieces and its reader is abandoned  *)
 (* in between; the second request's reader must still get both messages right                     *)
 F6 == UNION {{Case(<<a, <<"x">>>>, {c}, "none", -1, {}, "none", -1) : c \in 1..(Len1(a) - 1)}
@@ -76,7 +83,9 @@ F11 == {Case(Many(n), c, "none", -1, {}, "none", -1) : n \in {33, 40, 70},
 (* first byte, its first half, the hello and the first reply) arrives ahead of SSH_MSG_CHANNEL_SUCCESS                  *)
 F12 == {[Case(<<b>>, {}, "none", -1, {}, "none", -1) EXCEPT !.hello_close_at = -1] @@ [early |-> e] :
           b \in {<<"x">>, <<"]", "]", ">">>}, e \in {"all", "one-byte", "half", "all-but-one"}}
-Cases == CASE Family = "F12" -> F12 [] Family = "F7" -> F7 [] Family = "F10" -> F10 [] Family = "F11" -> F11 [] Family = "F8" -> F8 [] Family = "F9" -> F9 [] Family = "F6" -> F6 [] Family = "F1" -> F1 [] Family = "F2" -> F2 [] Family = "F3" -> F3
+(* a slow peer: its hello comes in two pieces six seconds apart (longer than any "still waiting" timer a client may run) *)
+F14 == {[Case(<<<<"x">>>>, {}, "none", -1, {h}, "none", -1) EXCEPT !.close_at = -1] @@ [hello_pause_ms |-> 6000] : h \in {1, HelloLen \div 2, HelloLen - 1}}
+Cases == CASE Family = "F14" -> F14 [] Family = "F13" -> F13 [] Family = "F12" -> F12 [] Family = "F7" -> F7 [] Family = "F10" -> F10 [] Family = "F11" -> F11 [] Family = "F8" -> F8 [] Family = "F9" -> F9 [] Family = "F6" -> F6 [] Family = "F1" -> F1 [] Family = "F2" -> F2 [] Family = "F3" -> F3
            [] Family = "F4" -> F4 [] Family = "F5" -> F5
 ASSUME PrintT(<<"GEN", ToJson([cases |-> Cases])>>)
 VARIABLE dummy
